@@ -60,7 +60,9 @@ var shapes = []string{"empty", "single", "chain", "adv-small", "adv-medium", "de
 
 // genTree generates the contents of one tree of the given shape class.
 // maxKeys bounds the largest classes.
-func genTree(rng *rand.Rand, shape string, maxKeys int) model {
+// chainDepthBound bounds the number of chain steps of ordinary "chain" trees; genTree with
+// deep=true produces a nested-prefix chain of 140 keys, i.e. more than 128 node levels.
+func genTree(rng *rand.Rand, shape string, maxKeys int, chainDepthBound int, deep bool) model {
 	m := model{}
 	switch shape {
 	case "empty":
@@ -75,20 +77,23 @@ func genTree(rng *rand.Rand, shape string, maxKeys int) model {
 	case "chain":
 		// Deep prefix chains: every key is a proper prefix of the next one, so every leaf but the
 		// last hangs off an internal node; a few siblings branch off at random depths.
-		depth := 8 + rng.IntN(120)
+		depth := 8 + rng.IntN(chainDepthBound)
+		if deep {
+			depth = 140
+		}
 		cur := []byte{}
 		if rng.IntN(2) == 0 {
 			m[""] = smallValue(rng)
 		}
 		for i := 0; i < depth; i++ {
 			step := 1
-			if rng.IntN(5) == 0 {
+			if rng.IntN(5) == 0 && !deep {
 				step = 1 + rng.IntN(3)
 			}
 			for j := 0; j < step; j++ {
 				cur = append(cur, alphabet[rng.IntN(len(alphabet))])
 			}
-			if rng.IntN(8) != 0 {
+			if deep || rng.IntN(8) != 0 {
 				m[string(cur)] = smallValue(rng)
 			}
 			if rng.IntN(4) == 0 {
